@@ -155,6 +155,9 @@ func RubyGems(quick bool) []string {
 	pre := []string{"", ".a", ".b", ".a.1", ".a.2", ".a1", ".rc1", ".rc.1", ".pre", ".pre.1", "-a", "-1", ".a.0", ".a.0.b", "a", "b2", ".A", ".a.b", ".beta.10", ".beta.9",
 		".a.10", ".a.9", "-a.1", ".a-1", ".a1b", ".1a", "rc", ".a.0.0", ".b.0", "-2", "-a-b"}
 	out := product(release, pre)
+	// more plain releases (1-4 components) for the release-only clauses
+	nums := []string{"0", "1", "2", "10"}
+	out = append(out, product(nums, []string{"", ".0", ".1", ".10"}, []string{"", ".0", ".2"}, []string{"", ".0", ".3"})...)
 	out = append(out, "01", "1.02", "1.0.a.01", "1..0", "1.a.b.c.d", "1.0.0.0.0.1", "1.0.0.0.0.0", "1.x")
 	return dedup(out)
 }
